@@ -11,6 +11,7 @@ import (
 	"context"
 	"errors"
 	"os"
+	"sync"
 	"sync/atomic"
 	"time"
 
@@ -126,6 +127,15 @@ func verifC06Timer(exiting *atomic.Bool, ch chan linkedlog.KeyToOffsetAndSizeAnd
 	return time.After(5 * time.Millisecond)
 }
 
+// verifC06QuietMutex is an engine intrinsic (ext_C06.go): Lock/Unlock of mu are not scheduling
+// points. Used for GsfaWriter.mu (only the pushing goroutine ever takes it) to keep the schedule
+// space small; natively a no-op.
+func verifC06QuietMutex(mu *sync.Mutex) {}
+
+// verifC06RunOthers is an engine intrinsic (ext_C06.go): the caller waits until every other
+// goroutine is blocked; natively a short sleep.
+func verifC06RunOthers() { time.Sleep(2 * time.Millisecond) }
+
 // ---------------------------------------------------------------------------------------------
 
 // c06NewWriter initialises a GsfaWriter field by field like NewGsfaWriter does, with the index
@@ -149,8 +159,15 @@ func c06NewWriter(dir string, chanCap int, withFlusher bool) *GsfaWriter {
 	ll, err := linkedlog.NewLinkedLog(dir + "/linked-log")
 	verifAssert(err == nil, "C06: NewLinkedLog failed")
 	w.ll = ll
+	verifC06QuietMutex(&w.mu)
 	if withFlusher {
 		go w.fullBufferWriter()
+		if verifParam("eager", 0) == 1 {
+			// quick tier: the flusher runs its prologue (no shared effect: it reads exiting,
+			// which is still false, and blocks in its select) before the first Push. All later
+			// timings are still explored; the thorough tier does not apply this reduction.
+			verifC06RunOthers()
+		}
 	} else {
 		w.fullBufferWriterDone = make(chan struct{}, 1)
 		w.fullBufferWriterDone <- struct{}{}
@@ -187,3 +204,24 @@ func c06CheckGet(r *GsfaReader, pk solana.PublicKey, want []linkedlog.OffsetAndS
 		verifAssert(got[i] == want[i], tag+": Get returns a wrong location/slot/flags or not in newest-first order")
 	}
 }
+
+// c06SymEntry: offset, slot and flags symbolic (offset, slot < 2^bits), size = a concrete
+// serial number that makes every entry of a history distinct.
+var c06Serial uint64
+
+func c06SymEntry(bits uint) *linkedlog.OffsetAndSizeAndSlot {
+	o, l, f := verifU64("offset"), verifU64("slot"), verifU8("flags")
+	verifAssume(o < 1<<bits) // one assume per field: `&&` on symbolic operands would fork
+	verifAssume(l < 1<<bits)
+	c06Serial++
+	return &linkedlog.OffsetAndSizeAndSlot{Offset: o, Size: c06Serial, Slot: l, Flags: linkedlog.Bitmap(f)}
+}
+
+func c06Reversed(in []linkedlog.OffsetAndSizeAndSlot) []linkedlog.OffsetAndSizeAndSlot {
+	out := make([]linkedlog.OffsetAndSizeAndSlot, len(in))
+	for i := range in {
+		out[len(in)-1-i] = in[i]
+	}
+	return out
+}
+
